@@ -1,5 +1,6 @@
 //! poulpy-sim: deterministic simulation with fault injection for poulpy (see /verif/DESIGN.md).
 mod alloc;
+mod c12;
 mod c18;
 mod c20;
 mod driver;
@@ -15,7 +16,7 @@ use driver::{CheckImpl, Tier};
 static GLOBAL: alloc::SimAlloc = alloc::SimAlloc;
 
 fn checks() -> Vec<Box<dyn CheckImpl>> {
-    vec![Box::new(c18::C18), Box::new(c20::C20)]
+    vec![Box::new(c12::C12), Box::new(c18::C18), Box::new(c20::C20)]
 }
 
 fn main() {
@@ -45,6 +46,7 @@ fn main() {
             driver::worker_main(c.as_mut(), &args[3..]);
         }
         "replay" => driver::replay_main(&mut all, &args[2]),
+        "c12-sweep" => c12::sweep(&args[2], &args[3], args[4].parse().unwrap()),
         _ => driver::harness_error("unknown command"),
     }
 }
